@@ -14,7 +14,10 @@ from vx.rust_text import tokenize
 
 OUT = "/tmp/mg"
 FILES = ["src/query/selector.rs", "src/query/segment.rs", "src/query/state.rs", "src/query/filter.rs", "src/query/atom.rs", "src/query/test.rs",
-         "src/query/comparable.rs", "src/query/comparison.rs", "src/query/test_function.rs", "src/query/jp_query.rs", "src/query.rs", "src/parser/model.rs"]
+         "src/query/comparable.rs", "src/query/comparison.rs", "src/query/test_function.rs", "src/query/jp_query.rs", "src/query.rs", "src/parser/model.rs", "src/query/queryable.rs"]
+if os.environ.get("MG_FILES"):      # restrict to some files (e.g. MG_FILES=queryable.rs,test_function.rs)
+    FILES = [f for f in FILES if os.path.basename(f) in os.environ["MG_FILES"].split(",")]
+OUT = os.environ.get("MG_OUT", OUT)
 SWAP = {"<": ["<="], "<=": ["<"], ">": [">="], ">=": [">"], "==": ["!="], "!=": ["=="], "+": ["-"], "-": ["+"], "&&": ["||"], "||": ["&&"]}
 IDENT = {"min": "max", "max": "min", "any": "all", "all": "any", "true": "false", "false": "true", "Some": None, "is_some": "is_none", "is_none": "is_some",
          "lhs": "rhs", "rhs": "lhs", "start": "end", "end": "start", "lower": "upper", "upper": "lower"}
@@ -147,7 +150,7 @@ def eval_one(args):
                 elif r.status != "proved":
                     undec.append(n)
         m["verus_failed"], m["verus_undecided"] = failed, undec
-        res = native.run_groups(run, ["arith", "pointer_text", "name_lookup", "descendant", "selectors", "regex", "cmp_struct", "e2e_cmp", "e2e_fn", "e2e_filter", "text_arith", "text_filter", "text_plain", "text_union", "text_cmp", "custom", "e2e"])
+        res = native.run_groups(run, ["arith", "pointer_text", "name_lookup", "descendant", "selectors", "regex", "cmp_struct", "e2e_cmp", "e2e_fn", "e2e_filter", "text_arith", "text_filter", "text_plain", "text_union", "text_cmp", "custom", "ext_direct", "e2e_ext", "text_ext", "e2e"])
         nf = []
         if res:
             from vx import findings
